@@ -390,6 +390,38 @@ def leanArgTy : Nf.ArgTy → String
 def leanCtx (c : Nf.Ctx) : String :=
   "{ rawTy := " ++ leanITy c.rawTy ++ ", arg := " ++ leanArgTy c.arg ++ ", argVar := " ++ leanVar c.argVar ++ " }"
 
+/-! ### printing a normal form (evidence samples) -/
+
+def showSrc : Nf.Src → String
+  | .c b => if b then "1" else "0"
+  | .inp a j n => (if n then "!" else "") ++ (if a then "v" else "r") ++ toString j
+  | .ors ls => "(" ++ "|".intercalate (ls.map fun l => (if l.neg then "!" else "") ++ (if l.arg then "v" else "r") ++ toString l.j) ++ ")"
+  | .top => "?"
+
+def showSVal : Nf.SVal → String
+  | .int t l => showITy t ++ "[" ++ " ".intercalate (l.map showSrc) ++ "]"
+  | .bool s => "bool[" ++ showSrc s ++ "]"
+  | .uint n l => s!"u{n}[" ++ " ".intercalate (l.map showSrc) ++ "]"
+  | .cust => "custom"
+
+def showSRes : Option Nf.SRes → String
+  | none => "none" | some .panic => "panic" | some (.ok v) => showSVal v | some (.call t v) => s!"new_with_raw_value#{t}(" ++ showSVal v ++ ")"
+
+/-- `nfshow DECL ITEM [INDEX]`: the normal form of the model's body (bit 0 first; `rK` = bit K of the raw value, `vK` = bit K
+    of the written value) -/
+def nfshow (st : State) (decl item : String) (idx : Option Nat) : String :=
+  match st.find decl with
+  | some (_, .bitfield _ p) =>
+    match itemOf p item with
+    | some (m, ctx, _) =>
+      let c : Nf.Ctx := { ctx with index := idx }
+      let body := match m, idx with
+        | .assertE _ b, some _ => b
+        | e, _ => e
+      s!"nfshown {decl} {item} {match idx with | some i => toString i | none => "-"} {showSRes (Nf.nf c c.init body)}"
+    | none => s!"nfshown {decl} {item} - noitem"
+  | _ => s!"nfshown {decl} {item} - nodecl"
+
 /-- `nfcmp DECL ITEM <S-expression of the emitted body>`; with `terms`, an `equal` answer is followed by the Lean source of the
     claim (`nfterm …`), which the run has the kernel re-check -/
 def nfcmp (st : State) (decl item sx : String) (terms : Bool := false) : State × List String :=
@@ -561,6 +593,7 @@ def step (st : State) (chk : Bool) (line : String) : State × Bool × List Strin
     let sx := " ".intercalate ((line.splitOn " ").drop 3)
     let (st', out) := nfcmp st decl item sx
     (st', chk, out)
+  | ["nfshow", decl, item, idx] => (st, chk, [nfshow st decl item idx.toNat?])
   | "nfcmpx" :: decl :: item :: _ =>
     let sx := " ".intercalate ((line.splitOn " ").drop 3)
     let (st', out) := nfcmp st decl item sx true
